@@ -5,6 +5,7 @@
 #ifndef PROXY_VERIF_H
 #define PROXY_VERIF_H
 
+#include <map>
 #include <string>
 #include <vector>
 #include <functional>
@@ -70,6 +71,10 @@ public:
   std::vector<int> thread_of;     // thread assignment per item (empty = 0)
   int replica_id = 0, n_replicas = 1;
   std::vector<std::vector<std::string> > *mailbox = nullptr; // [dest][src] message
+  // replicas as separate processes: messages are files <comm_dir>/m_<src>_<dst>_<seq>
+  std::string comm_dir;
+  std::map<int, long> seq_send, seq_recv;
+  long comm_sent = 0, comm_received = 0;
   std::string last_log, all_errors;
   std::vector<std::string> ti_log;   // log lines carrying staged-TI output
   bool first_step = true;
